@@ -45,7 +45,7 @@ def plan(tier, seed):
     specs = [{"kind": "table", "ops": [op]} for op in OPS]
     specs.append({"kind": "directed"})
     n = 9 if tier == "quick" else 41
-    per = 900 if tier == "quick" else 6000
+    per = 2500 if tier == "quick" else 9000
     for i in range(n):
         specs.append({"kind": "random", "n": per, "depth": (2 + i % 3) if tier == "quick" else (3 + i % 4), "spellings": 2 if tier == "quick" else 4})
     return specs
